@@ -74,6 +74,8 @@ func checkC05(r *Run) {
 		exploreConc(r, g3, "", 30*time.Minute)
 	}
 	runStressD2(r)
+	runProtoProofs(r)
+	r.assumption("the TLAPS / Apalache results are about the reduced protocol FoxProto, which FoxConc is checked to refine on the bounded instances")
 	r.assumption("interleavings are controlled at the verification points of the implementation; code between two points runs without interruption in the replay")
 }
 
